@@ -120,6 +120,10 @@ SHA512_Transform(uint64_t * state, const unsigned char block[SHA512_BLOCK_LENGTH
 	uint64_t W[80];
 	uint64_t S[8];
 	int i;
+#ifdef XCRYPT_VERIF
+	uint64_t verif_in[8];
+	memcpy(verif_in, state, sizeof verif_in);
+#endif
 
 	/* 1. Prepare the first part of the message schedule W. */
 	be64dec_vect(W, block, SHA512_BLOCK_LENGTH/8);
@@ -170,6 +174,7 @@ SHA512_Transform(uint64_t * state, const unsigned char block[SHA512_BLOCK_LENGTH
 	/* 4. Mix local working variables into global state */
 	for (i = 0; i < 8; i++)
 		state[i] += S[i];
+	VERIF_EV("sha512", verif_in, 64, block, SHA512_BLOCK_LENGTH, state, 64);
 }
 
 static const unsigned char PAD[SHA512_BLOCK_LENGTH] = {
